@@ -68,7 +68,17 @@ def draw_case(g, idx):
         for j in range(n_out):
             origin = (0.0, 0.0) if (j == 0 and g.random() < 0.6) else (float(round(g.uniform(0, size * 0.8), 1)), float(round(g.uniform(0, size * 0.8), 1)))
             s = size * (1.0 if j == 0 else float(g.uniform(0.4, 0.9)))
-            if mode == 0:
+            if idx % 6 == 4 and j == 0:
+                # a plain axis-aligned rectangular lot, usually set back from one or both axes (any start corner; closing corner repeated or not)
+                x0, y0 = [(0.0, 0.0), (float(round(g.uniform(3, 25), 1)), 0.0), (0.0, float(round(g.uniform(3, 25), 1))),
+                          (float(round(g.uniform(3, 25), 1)), float(round(g.uniform(3, 25), 1)))][int(g.integers(0, 4))]
+                w_, h_ = float(round(s * g.uniform(0.6, 1.0), 1)), float(round(s * g.uniform(0.5, 1.0), 1))
+                poly = [(x0, y0), (x0 + w_, y0), (x0 + w_, y0 + h_), (x0, y0 + h_)]
+                r_ = int(g.integers(0, 4))
+                poly = poly[r_:] + poly[:r_]
+                if g.random() < 0.3:
+                    poly = poly + [poly[0]]
+            elif mode == 0:
                 poly = GLOT.convex(g, s, origin=origin)
             elif mode == 1:
                 poly = GLOT.star(g, s, origin=origin)
@@ -98,7 +108,7 @@ def draw_case(g, idx):
         ok = all(window_ok(L, b_min, bm, 2) for L in (max_x, max_y) for bm in (b_max_x, b_max_y))
         if not ok:
             continue
-        return {"property": outlines, "nogo": nogo, "b_min": b_min, "b_max_x": b_max_x, "b_max_y": b_max_y, "shape": ["convex", "star", "orthogonal"][mode]}
+        return {"property": outlines, "nogo": nogo, "b_min": b_min, "b_max_x": b_max_x, "b_max_y": b_max_y, "shape": "rectangle-set-back" if idx % 6 == 4 else ["convex", "star", "orthogonal"][mode]}
     raise RuntimeError("generator failed")
 
 
